@@ -185,6 +185,51 @@ def run_profiles(names, tier, parallel=4):
     return out
 
 
+REJECTS = {"add_bond_badrole", "set_bond_badrole"}
+QUERY_NAMES = None
+
+
+def classify_record(r, verdict):
+    """which properties a rejected trace record speaks about + a stable signature."""
+    from .replay import QUERIES, DERIVERS
+    name = r["op"]["name"]
+    kind = r["pre"]["kind"]
+    allowed = sorted(verdict["allowed"]) if verdict else []
+    props = set()
+    must_raise = allowed == ["raise"]
+    if must_raise or (name in QUERIES and "raise" in allowed):
+        props.add("C19")
+    if name in ("relabel_inplace", "relabel_copy"):
+        props.add("C11")
+    if name in ("subgraph", "compose", "compose_components"):
+        props.add("C17")
+    if name == "json_roundtrip":
+        props.add("C15")
+    if name in ("reactant", "product", "reverse"):
+        props.add("C08")
+    if name == "enantiomer":
+        props.add("C06")
+    if name in ("copy", "copy_ctor"):
+        props.add("C10")
+    if not props or (name not in DERIVERS and not must_raise):
+        props.add("C09")
+    if verdict is None:
+        clause = "views-disagree:" + _gen(r.get("incoherent", ["?"])[0])
+        if name in DERIVERS and name not in ("json_roundtrip", "reactant", "product", "reverse", "enantiomer"):
+            props |= {"C10"} if name in ("copy", "copy_ctor") else set()
+    else:
+        clause = next((k for k in ("outcome", "post", "result", "answer", "coherent") if not verdict[k]), "?")
+    sig = f"{name}|{kind}|{r['exc']}|{clause}|allowed={'+'.join(allowed)}"
+    what = (f"{kind}.{name} recorded outcome {r['exc']}: clause '{clause}' of Trace_Edit rejected the record "
+            f"(allowed outcome classes {allowed})")
+    return props, sig, what
+
+
+def _gen(t):
+    import re
+    return re.sub(r"\[.*?\]", "[..]", re.sub(r"-?\d+", "N", t))[:80]
+
+
 def run(prop: str, tier: str) -> int:
     rep = Reporter(prop, tier)
     names = PROP_PROFILES[prop]
@@ -214,11 +259,51 @@ def run(prop: str, tier: str) -> int:
         for f in r["fails"]:
             if prop in f["props"]:
                 rep.violation(f"{prop}|{f['sig']}", f["what"], {"profile": r["name"], **f["detail"]})
+    # ---------------- code -> spec: random histories validated by TLC ----------------
+    from . import drive
+    n_steps = {"quick": 6000, "thorough": 150000}[tier]
+    t_tr = time.time()
+    chunk = 30000
+    n_rec = n_ok = n_undriven = 0
+    trace_ops = {}
+    tr_samples = []
+    for ci, start in enumerate(range(0, n_steps, chunk)):
+        recs, alias, incoh = drive.generate(common.seed() * 7919 + ci + 1, min(chunk, n_steps - start))
+        ok, bad, res = drive.validate(recs)
+        byid = {r["id"]: r for r in recs}
+        n_rec += len(recs)
+        n_ok += len(ok)
+        for r in recs:
+            trace_ops[r["op"]["name"]] = trace_ops.get(r["op"]["name"], 0) + 1
+        if not tr_samples:
+            tr_samples = [{k: recs[i][k] for k in ("op", "out", "pre", "post")} for i in (5, len(recs) // 2)]
+            for smp in tr_samples:
+                smp["op"] = {k: v for k, v in smp["op"].items() if v not in (0, "", False, [], drive.NOD)}
+        for i, b in bad.items():
+            r = byid[i]
+            if not b["driven"]:
+                n_undriven += 1
+                continue
+            props, sig, what = classify_record(r, b)
+            if prop in props:
+                rep.violation(f"{prop}|trace|{sig}", what, {"record": r, "verdict": b})
+        for a in alias:
+            if prop == "C10":
+                r = a["rec"]
+                rep.violation(f"C10|trace|{r['op']['name']}|{r['post']['kind']}|other-object-changed",
+                              f"an object that was not the receiver of {r['op']['name']} changed (shared mutable state)", a)
+        for r in incoh:
+            props, sig, what = classify_record(r, None)
+            if prop in props:
+                rep.violation(f"{prop}|trace|{sig}", what, {"record": r})
+    cov_trace = {"records": n_rec, "accepted": n_ok, "not_driven": n_undriven, "by_operation": trace_ops,
+                 "wall_s": round(time.time() - t_tr, 1), "samples": tr_samples}
     cov = {
+        "trace_validation": cov_trace,
         "states": states,
         "transitions": trans,
-        "traces_validated_against_impl": replayed,
-        "evaluations": replayed,
+        "traces_validated_against_impl": replayed + n_rec,
+        "evaluations": replayed + n_rec,
         "distinct_nontrivial": len(nontrivial),
         "rule": "every transition generated by TLC in the listed MC_Edit profiles (bounded universes) is executed on a real "
                 "object obtained by a genuine history; distinct_nontrivial = distinct (class, operation) pairs exercised",
